@@ -286,3 +286,30 @@ func VerifC08_StoreListVsUpdate() {
 	zzverif.Assert(a.ok && (a.body == interface{}("ab") || a.body == interface{}("zb")), "store: a listing saw neither the old nor the new records")
 	zzverif.Reach("list")
 }
+
+// ---------------------------------------------------------------------------
+// a module constant used by two requests at once: each request builds its own
+// value from it, the constant itself never changes
+
+const srcConst = `
+const DEFAULT_TAGS = ["new", "unread", "inbox"]
+
+@ GET /label/:tag {
+  $ tags = append(DEFAULT_TAGS, tag)
+  $ n = length(tags)
+  > tags[3] + ":" + tags[0] + ":" + join(DEFAULT_TAGS, ",")
+}
+`
+
+func VerifC08_SharedConstant() {
+	s := newServer(srcConst)
+	p := zzverif.StringFrom("p", 1, "ab")
+	q := zzverif.StringFrom("q", 1, "cd")
+	a, b := both(
+		func() reply { return s.get("/label/:tag", "/label/"+p, map[string]string{"tag": p}) },
+		func() reply { return s.get("/label/:tag", "/label/"+q, map[string]string{"tag": q}) },
+	)
+	zzverif.Assert(same(a, interface{}(p+":new:new,unread,inbox")), "constant: first reply is not the served-alone reply")
+	zzverif.Assert(same(b, interface{}(q+":new:new,unread,inbox")), "constant: second reply is not the served-alone reply")
+	zzverif.Reach("const")
+}
